@@ -121,7 +121,7 @@ class Stage:
         self.records = 0
         self.accepted = 0
 
-    def harness(self, tag, scn, env, timeout=3000):
+    def harness(self, tag, scn, env, timeout=6000):
         ctx = self.ctx
         out = os.path.join(ctx.build, "c17.%s.%s.out" % (self.name, tag))
         e = dict(env)
@@ -295,7 +295,7 @@ def run(ctx):
     recs_resp = st_resp.run("gen", ids(g_resp), dict(VERIF_COMBOS=3 if q else 8), repro_def,
                             "raw response sent by the reference server")
     # 3c. request definitions through rawRequestSender and the whole reference client
-    recs_req = st_req.run("gen", ids(g_req), dict(VERIF_COMBOS=2 if q else 4), repro_def,
+    recs_req = st_req.run("gen", ids(g_req), dict(VERIF_COMBOS=2 if q else 3), repro_def,
                           "raw request sent by the reference client")
     # 3d. the encoders on their own (buffer, byte-wise writer, pipe)
     recs_enc = st_enc.run("gen", ids(g_body), {}, repro_body, "body encoder")
